@@ -42,3 +42,13 @@ reg("C16", "DESIGN.md#17", "abstract interpretation (child executor large branch
     "handlers dispatch to replay() iff SUCCEEDED and replay() maps each recorded child status to one item, BatchResult summary generators do not flow into "
     "branch contexts, and the wrapper records an oversized result/error synchronously before answering with an empty payload.",
     "Equality of the rebuilt value and byte-vs-character length are not decided.")
+reg("C05", "DESIGN.md#6", "abstract interpretation of the batch collector and consumer loop over modelled queues + who-may-call",
+    "Decides, on every path of the collector (queues as sources of fresh keyed items, loops unrolled), item linearity, acquisition order, no overtaking after "
+    "parking, progress on an empty batch, the inductive 'at most one parked update' invariant, and count/size guards computed from the accepted item; on the "
+    "consumer: token threading, updates = batch, release on success after merge and on failure with the error; queue/API ownership over the package.",
+    "Producer/consumer interleavings, batching-window timing and real byte sizes are not explored; stdlib Queue is FIFO.")
+reg("C06", "DESIGN.md#7", "abstract interpretation of consumer failure handler, producer, thread roots, wrapper + exception-class lattice rules",
+    "Decides handler completeness (wake batch, drain both queues with the error, raise the flag, stop), the store->load handshake on both sides, BaseException-only "
+    "discipline and absence of swallowing handlers, routing of every branch outcome (incl. BackgroundThreadError) to the completion event and re-raise by the "
+    "waiter, the wrapper's outcome for a background failure (raise or FAILED, never SUCCEEDED/PENDING), and that a failed checkpoint ends the operation.",
+    "Schedules are not explored (the handshake is an argued pairing); wall-clock promptness is not decided.")
